@@ -29,13 +29,22 @@
      QueueResumer  the oneshot shim logs `os send` / `os txdrop` AFTER the channel operation and after the receiver's waker has
                    run, and `send` yields first: the harness marker `api RESUME` arms the fire, the FFire step is taken at the
                    firing actor's next event or at the first `os poll` that sees the value; os send/txdrop only check `fired`.
-     sync job      ready/syncres are not replayed: the runner's silent FJob (JSync) step is forced when the waiting
-                   sync_background caller (FSBwait) moves on (like FUnpark for the park token).
+     sync job      the job of a sync_background caller c is an UnsafeJob with notification: `ready := true` + notify happen in its
+                   Drop, after job.run returned (in run_one_job_now: after the debug_assert that follows it).  The model's single job
+                   step (closure, sres := true) is taken at that section `cs ready <id> true` of the RUNNER (label SetReady c); the
+                   closure's own sections before it (syncres; the take of SchedulerFuture::sync(): fres) and that debug_assert
+                   (exactly one core section) are stutters.  Jobs of sync_drain (no `ready`) stay silent steps.
+     waiter        `cs ready <id>` of the waiter at the head of its loop = FSBwait; reschedule_queue sets the `rescheduled` flags
+                   one waiter after the other inside its core section: FRQ1 is taken at the first `kick`, the model's kickall is
+                   undone and the flag of ONE waiter is set at each `kick ready <id>` (loop heads of other waiters may fall between
+                   two kicks; they commute with them).
+     V<e>          a caller's harness-level await (AWAITREG / AWAITREADY / TWAKE / UNPARKED between two operations) has no model step;
+                   the silent FTop step of the caller's NEXT operation is not taken at these events.
      end of log    the replay stops at `api QUIET` (pool >= 1; wait_all returned) or `api END` (pool 0: the harness then drains
                    the queues itself).  Every caller must have finished its script at END; at QUIET no job may be left
                    (programs without suspend: the harness counts a suspend as finished when its resumer is used); the pool
                    runners may still be inside drain / next_to_run, their last sections come after QUIET.
-   Ignored classes: busy, threads, max (pool hand-over, abstracted), ready, syncres (sync's private protocol), kind `sf`.
+   Ignored classes: busy, threads, max (pool hand-over, abstracted), syncres, `ready` sections other than the two above, kind `sf`.
    SKIP (not expressible in the model): see parse_prog and Unsupported below.
    Usage: replay_l2 [--trace] file.log ... *)
 open L2model
@@ -50,11 +59,11 @@ type ev = { task : int; kind : string; cls : string; id : int; snap : string }
 exception Diverge of string
 exception Unsupported of string
 
-type lab = Core | Sched | Fres of int | Dw of int | Dbl of int | Fire of int | Reg of int | Rdy of int | Twake of int | Unparked | NewF
+type lab = Core | Sched | Fres of int | Dw of int | Dbl of int | Fire of int | Reg of int | Rdy of int | Twake of int | Unparked | NewF | SetReady of int
 let show_lab = function
   | Core -> "core" | Sched -> "sched" | Fres f -> Printf.sprintf "fres(%d)" f | Dw d -> Printf.sprintf "dwaker(%d)" d
   | Dbl k -> Printf.sprintf "dblwaker(%d)" k | Fire e -> Printf.sprintf "FIRE(%d)" e | Reg e -> Printf.sprintf "AWAITREG(%d)" e
-  | Rdy e -> Printf.sprintf "AWAITREADY(%d)" e | Twake c -> Printf.sprintf "TWAKE(actor %d)" c | Unparked -> "UNPARKED" | NewF -> "new fres"
+  | Rdy e -> Printf.sprintf "AWAITREADY(%d)" e | Twake c -> Printf.sprintf "TWAKE(actor %d)" c | Unparked -> "UNPARKED" | NewF -> "new fres" | SetReady c -> Printf.sprintf "ready := true (job of waiter %d)" c
 
 let show_qs = function
   | Idle -> "Idle" | Pending -> "Pending" | Running -> "Running" | WaitingForWake -> "WaitingForWake"
@@ -168,11 +177,22 @@ let getf (s : state) f = match List.nth_opt s.futs f with Some c -> c | None -> 
 let getev (s : state) e = match List.nth_opt s.evs e with Some c -> c | None -> { fired = true; wakers = [] }
 let top_of (s : state) a = match List.nth_opt s.actors a with Some ac -> (match ac.stack with f :: _ -> Some f | [] -> None) | None -> None
 
+(* caller c is inside sync_background (its job is an UnsafeJob with notification): FSBwait / FSBclaim, or FSBdone below the frames
+   of the queue it took over *)
+let is_bg_waiter (s : state) (c : int) : bool =
+  match List.nth_opt s.actors c with
+  | Some ac -> List.exists (function FSBwait | FSBclaim | FSBdone -> true | _ -> false) ac.stack
+  | None -> false
+
 (* the log event at which the step of frame fr is taken; None = silent frame *)
 let at_of (s : state) (fr : frame) : lab option =
   match fr with
   | FSFpoll f -> (match (getf s (i f)).res with FSome _ | FReturned -> Some (Fres (i f)) | FNone -> Some Core)   (* no result yet: the core section nested in fres *)
   | FPIdle -> Some Core                                  (* the core section nested in the schedule section of next_to_run *)
+  (* the job of a sync_background caller c: the waiter reads `ready`, which is set (and the condvar notified) by the Drop of the
+     UnsafeJob - AFTER job.run returned and, in run_one_job_now, after the debug_assert that follows it; the model's single job
+     step (closure, sres := true) is taken at that section `cs ready <id> true` of the runner *)
+  | FJob (JSync (_, c, _), _, _) when is_bg_waiter s (i c) -> Some (SetReady (i c))
   | FSBclaim -> Some Core                                (* claim_pending_queue of a sync_background waiter: core nested in the schedule section *)
   | FJob (JFut (_, Waiting, PAwait e :: _), _, _) -> if (getev s (i e)).fired then Some (Rdy (i e)) else Some (Reg (i e))
   | FJob (JFut (_, Waiting, PAwaitEither (e, e2) :: _), _, _) ->      (* api EITHERREADY <first fired> / EITHERREG <e> *)
@@ -196,6 +216,7 @@ let post_of (s0 : state) (a : int) (fr : frame) (s1 : state) : lab list =
   | FDRdeq | FROdeq | FDQdeq _ -> (match t1 with Some (FJob _) -> [Core] | _ -> []) (* debug_assert after a successful dequeue *)
   | FS1 _ -> (match t1 with Some (FClosure _) | Some (FSDpush _) -> [Core] | _ -> []) (* sync_immediate / sync_drain assert is_running *)
   | FJob (JFut (_, Waiting, PSignal f :: _), _, _) -> [Fres (i f)]                 (* Drop of the signaller re-locks the result *)
+  | FJob (JSync (_, c, _), _, KRoj) when is_bg_waiter s0 (i c) -> []                (* the Drop of the job comes after that debug_assert *)
   | FJob (_, _, KRoj) -> (match t1 with Some FSDloop -> [Core] | _ -> [])          (* run_one_job_now asserts is_running after the job *)
   | _ -> []
 
@@ -242,6 +263,9 @@ let replay (p : pinfo) (evs : ev array) : stats =
   (* read-only fres sections that come after whatever the woken waker does: signal = [fres: take waker]; waker.wake(); Drop of the signaller = [fres] *)
   let deferred : (int, lab list) Hashtbl.t = Hashtbl.create 8 in
   let getd a = match Hashtbl.find_opt deferred a with Some l -> l | None -> [] in
+  (* run_one_job_now: the debug_assert between job.run and the Drop of a sync_background caller's job (exactly one core section) *)
+  let pre_assert : (int, int) Hashtbl.t = Hashtbl.create 4 in
+  let get_pa a = match Hashtbl.find_opt pre_assert a with Some n -> n | None -> 0 in
   let take_deferred a lab = let l = getd a in
     if List.mem lab l then begin
       let rec rm = function [] -> [] | x :: r -> if x = lab then r else x :: rm r in
@@ -290,6 +314,18 @@ let replay (p : pinfo) (evs : ev array) : stats =
            (match raw_step a "silent" with
             | Some _ -> settle a (guard - 1)
             | None -> None)) in
+  (* the silent frames that finish caller a's previous operation; true when the caller is then between two operations (FTop): the
+     harness-level await V<e> of a caller logs AWAITREG / AWAITREADY there, and the FTop step of the NEXT operation (silent for desync /
+     sync) must not be taken yet *)
+  let rec between_ops a guard : bool =
+    if guard = 0 || getp a <> [] then false else
+      match top_of !s a with
+      | Some (FTop _) -> true
+      | Some (FSBwait | FROpark _ | FPark _) | None -> false
+      | Some fr ->
+        (match at_of !s fr with
+         | Some _ -> false
+         | None -> (match raw_step a "silent" with Some _ -> between_ops a (guard - 1) | None -> false)) in
   let stutter a lab snap why =
     match lab with
     | Core | Sched | Dw _ ->
@@ -302,6 +338,11 @@ let replay (p : pinfo) (evs : ev array) : stats =
          | Core, Some (FROpark _) when not (arec a).token && (match !s.qs with Running | AwokenWhileRunning -> true | _ -> false) ->
            raise (Unsupported "spurious wake-up of thread::park in run_one_job_now after a stale WakeThread wake (the model's FROpark needs the unpark token)")
          | _ -> ());
+        (match lab, top_of !s a with
+         | Core, Some (FJob (JSync (_, c, _), _, KRoj)) when is_bg_waiter !s (i c) ->
+           if get_pa a >= 1 then div "actor %d: a second core section between the run of the job of waiter %d and its Drop" a (i c);
+           Hashtbl.replace pre_assert a (get_pa a + 1)
+         | _ -> ());
         st.stutters <- st.stutters + 1 end
       else begin
         (match top_of !s a, lab with
@@ -309,6 +350,8 @@ let replay (p : pinfo) (evs : ev array) : stats =
          | _ -> ());
         div "actor %d performed a %s section with snapshot %s; the model's view is %s (%s; model frame %s)" a (show_lab lab) snap (model_view !s lab) why (show_top a)
       end
+    | Fres f when (match top_of !s a with Some (FJob (JSync (_, c, Some f'), _, _)) -> i f' = f && is_bg_waiter !s (i c) | _ -> false) ->
+      st.stutters <- st.stutters + 1        (* the closure of SchedulerFuture::sync() takes the result; the model's step comes at the job's Drop *)
     | Twake _ | Unparked -> ()                                                  (* harness executor: V<e>, poll-and-drop loops *)
     | Reg _ | Rdy _ when (match top_of !s a with Some (FTop _) -> true | _ -> false) -> ()   (* the caller's V<e> *)
     | _ -> div "actor %d performed %s, which the model does not expect (%s; model frame %s)" a (show_lab lab) why (show_top a) in
@@ -323,6 +366,7 @@ let replay (p : pinfo) (evs : ev array) : stats =
       Hashtbl.replace deferred a (getd a @ l); Hashtbl.replace pend a []; handle a lab snap
     | _ :: _ when take_deferred a lab -> st.stutters <- st.stutters + 1
     | _ :: _ -> stutter a lab snap "while read-only sections of the previous step are outstanding"
+    | [] when (match lab with Reg _ | Rdy _ | Twake _ | Unparked -> a < ncallers && between_ops a 200 | _ -> false) -> ()   (* a caller's V<e> (await, wake, unpark), before its next operation *)
     | [] ->
       (match settle a 200 with
        | None when getp a <> [] -> handle a lab snap
@@ -354,6 +398,7 @@ let replay (p : pinfo) (evs : ev array) : stats =
      waker has already run: the fire step is taken at the firing actor's next event or at the first poll that sees the value *)
   let pfire : (int, int) Hashtbl.t = Hashtbl.create 4 in
   let seen_fres : (int, unit) Hashtbl.t = Hashtbl.create 8 in
+  let ready_owner : (int, int) Hashtbl.t = Hashtbl.create 8 in      (* `ready` mutex id -> the sync_background caller that created it *)
   let held_sched : (int, unit) Hashtbl.t = Hashtbl.create 4 in
   let in_sbwait a = (match top_of !s a with Some FSBwait | Some FSBdone -> true | _ -> false) in
   let flush_fire a = match Hashtbl.find_opt pfire a with
@@ -380,23 +425,33 @@ let replay (p : pinfo) (evs : ev array) : stats =
     cur := k;
     let e = evs.(k) in
     if e.kind = "acq" && e.cls = "sched" then Hashtbl.replace held_sched e.task ();
+    if e.kind = "new" && e.cls = "ready" then (match Hashtbl.find_opt actor_of e.task with Some a -> Hashtbl.replace ready_owner e.id a | None -> ());
     if e.kind = "api" && e.cls = "CALLER" then Hashtbl.replace actor_of e.task e.id
     else if e.kind = "api" && e.cls = "END" then begin
       at_end (); ended := true
     end
     else if !ended && p.pool = 0 then ()        (* without a pool the harness drains the queues itself after END (extra sync calls) *)
     else if e.kind = "kick" then begin
-      (* reschedule_queue sets the waiters' `rescheduled` flags INSIDE its core section; a waiter (its loop head is not under the core
-         lock) may see the flag before the section is logged as ended.  The FRQ1 step is therefore taken here, at the kick (nothing
-         else can touch the core data until the section ends); the section's own `cs core` event then only checks the snapshot *)
+      (* reschedule_queue sets the waiters' `rescheduled` flags INSIDE its core section, one waiter after the other; a waiter (its loop
+         head is not under the core lock) may see its flag before the section is logged as ended, and the head of ANOTHER waiter's loop
+         may fall between two kicks.  The FRQ1 step (state, schedule decision; nothing else can touch the core data until the section
+         ends) is taken at the first kick, but the model's [kickall] sets every flag at once: the driver keeps the flags as they were
+         and sets the flag of one waiter at each `kick ready <id>` (a loop head touches only the waiter's own flag, so it commutes with
+         the kicks of the other waiters: the log order is one of the orders the model allows).  The section's own `cs core` event then
+         only checks the snapshot *)
       (match Hashtbl.find_opt actor_of e.task with
        | Some b ->
          (match settle b 200 with
           | Some Core when (match top_of !s b with Some FRQ1 -> true | _ -> false) ->
+            let flags = List.map (fun (ac : arec) -> ac.kicked) !s.actors in
             (match raw_step b "kick (reschedule_queue)" with
-             | Some _ -> st.labelled <- st.labelled + 1; Hashtbl.replace pend b (Core :: getp b)
+             | Some _ -> st.labelled <- st.labelled + 1; Hashtbl.replace pend b (Core :: getp b);
+               s := { !s with actors = List.mapi (fun k (ac : arec) -> { ac with kicked = List.nth flags k }) !s.actors }
              | None -> ())
-          | _ -> ())
+          | _ -> ());
+         (match Hashtbl.find_opt ready_owner e.id with
+          | Some w -> s := { !s with actors = List.mapi (fun k (ac : arec) -> if k = w then { ac with kicked = true } else ac) !s.actors }
+          | None -> ())      (* the waiter has already returned (its `ready` is gone): nobody reads the flag *)
        | None -> ())
     end
     else if e.kind = "cs" && e.cls = "ready" then begin
@@ -411,6 +466,26 @@ let replay (p : pinfo) (evs : ev array) : stats =
          (match raw_step a "head of the waiter's loop" with
           | Some _ -> ()
           | None -> div "waiter %d leaves the head of its loop (ready = %s), in the model it is blocked (job not run, not kicked)" a e.snap)
+       | Some b when e.snap = "true" && (match top_of !s b with Some (FJob (JSync (_, c, _), _, _)) -> is_bg_waiter !s (i c) | _ -> false) ->
+         (* the Drop of the UnsafeJob of a sync_background caller, on the task that ran it: ready := true, notify.  This is the model's
+            job step (closure + sres := true); `ready` ids are numbered like the waiters' creation order, checked through the owner *)
+         (match getp b with
+          | [] -> ()
+          | l when List.for_all (function Fres _ -> true | _ -> false) l -> Hashtbl.replace deferred b (getd b @ l); Hashtbl.replace pend b []
+          | l -> div "actor %d drops the job of a sync_background caller while read-only sections (%s) are outstanding" b (show_lab (List.hd l)));
+         (match top_of !s b with
+          | Some (FJob (JSync (_, c, _), _, k)) ->
+            (match k with
+             | KRoj -> if get_pa b <> 1 then div "actor %d drops the job of waiter %d without the assertion section of run_one_job_now before it" b (i c);
+               Hashtbl.replace pre_assert b 0
+             | _ -> ());
+            (match Hashtbl.find_opt ready_owner e.id with
+             | Some a when a <> i c -> div "actor %d sets `ready` %d (waiter %d), in the model it runs the job of waiter %d" b e.id a (i c)
+             | _ -> ());
+            (match raw_step b (Printf.sprintf "job of waiter %d: ready := true" (i c)) with
+             | Some _ -> st.labelled <- st.labelled + 1
+             | None -> div "actor %d cannot run the job of waiter %d in the model%s" b (i c) (if would_panic tables !s (nat_of_int b) then " (the model would panic here)" else ""))
+          | _ -> ())
        | _ -> ())
     end
     else if relevant e then begin
